@@ -3,12 +3,12 @@
 import json, os, glob
 V = os.path.dirname(os.path.dirname(os.path.abspath(__file__)))
 sec = open(os.path.join(V, "lib", "design_sec0.md")).read()
-rows = ["| seeded change | breaks | needs, to manifest | caught by (quick tier unless noted) | missed by |", "|---|---|---|---|---|"]
+rows = ["| seeded change | breaks | needs, to manifest | caught by (quick tier, seed 1) | missed by | history |", "|---|---|---|---|---|---|"]
 for m in sorted(glob.glob(os.path.join(V, "seeded", "*", "meta.json"))):
     d = json.load(open(m))
     name = os.path.basename(os.path.dirname(m))
-    rows.append("| %s: %s | %s | %s | %s | %s |" % (name, d.get("summary", "")[:260].replace("|", "/").replace("\n", " "), d.get("property", ""), d.get("needs", "")[:200].replace("|", "/").replace("\n", " "),
-                                                  ", ".join(d.get("caught_by", [])) or "—", ", ".join(d.get("missed_by", [])) or "—"))
+    rows.append("| %s: %s | %s | %s | %s | %s | %s |" % (name, d.get("summary", "")[:260].replace("|", "/").replace("\n", " "), d.get("property", ""), d.get("needs", "")[:200].replace("|", "/").replace("\n", " "),
+                                                  ", ".join(d.get("caught_by", [])) or "—", ", ".join(d.get("missed_by", [])) or "—", d.get("note", "caught as first run").replace("|", "/")))
 sec = sec.replace("SEEDED_TABLE_PLACEHOLDER", "\n".join(rows))
 p = os.path.join(V, "DESIGN.md")
 s = open(p).read()
